@@ -68,6 +68,9 @@ def _bellman_ford_rust(
         path = []
         current = target
         while current != -1:
+            if len(path) > n_nodes:
+                # predecessors run in a circle: a cycle whose float sum came out below zero (as in the Python path)
+                return Result(None, float("-inf"), result["iterations"], 0, Status.UNBOUNDED)
             path.append(current)
             current = result["predecessors"][current]
         path.reverse()
